@@ -292,7 +292,7 @@ def replay(c):
 
 
 def run(tier):
-    nmax = 6 if tier == "quick" else 8
+    nmax = 6 if tier == "quick" else 9
     shapes = tree.shapes_upto(nmax)
     t = core.Tally()
     jobs = [(MOD, "job", {"shapes": c, "text": True, "reprs": True}) for c in core.chunks(shapes[::-1], core.NPROC * 6)]
